@@ -2077,7 +2077,11 @@ class TargetRegistry:
                 raise UnregisteredTarget(op, obj_type, type_map=type_map, path=path)
 
             self._type_cache[cache_key] = ret
-        return self._type_cache[cache_key]
+        ret = self._type_cache[cache_key]
+        if ret is False and raise_exc:
+            # (a False remembered from a raise_exc=False lookup)
+            raise UnregisteredTarget(op, obj_type, type_map=self.get_type_map(op), path=path)
+        return ret
 
     def get_type_map(self, op):
         try:
